@@ -7,12 +7,12 @@ package main
 // started since. Write verifiers are collected from every WRITE and COMMIT reply.
 
 import (
-	"strings"
-	"syscall"
 	"bytes"
 	"fmt"
 	"math/rand"
 	"os"
+	"strings"
+	"syscall"
 
 	"github.com/absfs/absnfs"
 )
@@ -217,7 +217,14 @@ func genC22(rng *rand.Rand, n int) SrvCase {
 			c.Ops = append(c.Ops, SOp{Kind: "write", Dir: "/" + name, Off: uint64(rng.Intn(24)), Data: randBytes(rng, 1+rng.Intn(12)), Stable: &st})
 		case k < 8:
 			sz := uint64(rng.Intn(20))
-			c.Ops = append(c.Ops, SOp{Kind: "setattr", Dir: "/" + name, Sa: Sattr{Size: &sz}})
+			o := SOp{Kind: "setattr", Dir: "/" + name, Sa: Sattr{Size: &sz}}
+			switch rng.Intn(4) {
+			case 0: // a file without write permission bits still has to be flushed by COMMIT
+				o.Sa.Mode = p32(uint32([]int{0o444, 0o400, 0o000, 0o555}[rng.Intn(4)]))
+			case 1:
+				o.Sa = Sattr{Mode: p32(uint32([]int{0o444, 0o644, 0o000}[rng.Intn(3)]))}
+			}
+			c.Ops = append(c.Ops, o)
 		default:
 			o := SOp{Kind: "commit", Dir: "/" + name}
 			if rng.Intn(3) == 0 {
@@ -242,7 +249,7 @@ func checkC22(r *Result, rng *rand.Rand, thorough bool) {
 	if thorough {
 		ncases, n = 4000, 40
 	}
-	r.Rule = "random CREATE/WRITE(UNSTABLE, DATA_SYNC, FILE_SYNC)/COMMIT(whole file and ranges; one in five while the backend refuses write-mode opens)/SETATTR(size) histories, with ExportOptions.Async off and on, over the crash-simulating backend; durable image checked before every backend call and after every reply; write verifier constant per instance and distinct across 64 successively created instances"
+	r.Rule = "random CREATE/WRITE(UNSTABLE, DATA_SYNC, FILE_SYNC)/COMMIT(whole file and ranges; one in five while the backend refuses write-mode opens)/SETATTR(size, mode incl. modes without write bits) histories, with ExportOptions.Async off and on, over the crash-simulating backend; durable image checked before every backend call and after every reply; write verifier constant per instance and distinct across 64 successively created instances"
 	crashPointsSeen = 0
 	for i := 0; i < ncases; i++ {
 		c := genC22(rng, 3+rng.Intn(n))
